@@ -60,6 +60,7 @@ type Loop struct {
 	hdrPhi  map[*ssa.Phi]Val
 	cands   []*Cand
 	userInv []*SpecClause
+	modset  *ModSet
 }
 
 // Cand is a Houdini candidate invariant.
@@ -157,7 +158,10 @@ func (f *Frame) rpo() []*ssa.BasicBlock {
 	var dfs func(b *ssa.BasicBlock)
 	dfs = func(b *ssa.BasicBlock) {
 		seen[b] = true
-		for _, s := range b.Succs {
+		// successors in reverse order: loop bodies precede loop exits in the
+		// resulting order (closer to source order, fewer irrelevant facts)
+		for i := len(b.Succs) - 1; i >= 0; i-- {
+			s := b.Succs[i]
 			if f.isBackEdge(b, s) || seen[s] {
 				continue
 			}
@@ -501,14 +505,14 @@ func (f *Frame) instr(in ssa.Instruction, st *State) {
 		}
 		f.vals[x] = out
 	case *ssa.MakeMap:
-		r := vc.alloc(st, "map")
+		r := vc.alloc(st, "map", "M|"+typeKey(x.Type()))
 		f.initMap(st, x.Type(), r)
 		f.vals[x] = scalar(x.Type(), r)
 	case *ssa.MakeSlice:
 		ln := f.val(x.Len).one()
 		cp := f.val(x.Cap).one()
 		f.oblige(st, "SAFE", "makeslice: len out of range", x.Pos(), And(Le(Zero, ln), Le(ln, cp)))
-		r := vc.alloc(st, "arr")
+		r := vc.alloc(st, "arr", "E|"+typeKey(elemOf(x.Type())))
 		f.zeroArray(st, elemOf(x.Type()), r)
 		f.vals[x] = sliceVal(x.Type(), r, ln, cp)
 	case *ssa.MakeInterface:
@@ -519,7 +523,7 @@ func (f *Frame) instr(in ssa.Instruction, st *State) {
 		for _, bv := range x.Bindings {
 			b = append(b, f.val(bv))
 		}
-		r := vc.alloc(st, "closure")
+		r := vc.alloc(st, "closure", "fn")
 		f.vals[x] = Val{T: x.Type(), L: []Term{r}, Fn: fn, Bnd: b}
 	case *ssa.ChangeType:
 		v := f.val(x.X)
@@ -575,7 +579,7 @@ func (f *Frame) allocVal(st *State, ptrT types.Type, hint string) Val {
 	if hint == "" {
 		hint = "obj"
 	}
-	r := vc.alloc(st, sanitize(hint))
+	r := vc.alloc(st, sanitize(hint), kindOfPtr(ptrT))
 	if at, ok := el.Underlying().(*types.Array); ok {
 		f.zeroArray(st, at.Elem(), r)
 		return Val{T: ptrT, L: []Term{r}, Loc: &Loc{Kind: LArr, Base: r, Root: "E|" + typeKey(at.Elem()), T: el}}
@@ -649,12 +653,16 @@ func (f *Frame) unop(x *ssa.UnOp, st *State) {
 func (f *Frame) assumeWF(st *State, v Val) Val {
 	vc := f.vc
 	pos := 0
+	vc.registerComp("Ty", SArr(SInt, SInt))
+	kindIs := func(ref Term, kind string) Term {
+		return Or(Eq(ref, Zero), Eq(Select(vc.get(st, "Ty"), ref), vc.kindTag(kind)))
+	}
 	var walk func(t types.Type)
 	walk = func(t types.Type) {
 		switch u := t.Underlying().(type) {
 		case *types.Slice:
 			arr, ln, cp := v.L[pos], v.L[pos+1], v.L[pos+2]
-			vc.fact(Imp(st.reach, And(Le(Zero, ln), Le(ln, cp), Le(Zero, arr), Lt(arr, st.alloc), Imp(Eq(arr, Zero), Eq(cp, Zero)))))
+			vc.fact(Imp(st.reach, And(Le(Zero, ln), Le(ln, cp), Le(Zero, arr), Lt(arr, st.alloc), Imp(Eq(arr, Zero), Eq(cp, Zero)), kindIs(arr, "E|"+typeKey(u.Elem())))))
 			pos += 3
 		case *types.Struct:
 			for i := 0; i < u.NumFields(); i++ {
@@ -663,8 +671,11 @@ func (f *Frame) assumeWF(st *State, v Val) Val {
 				}
 				walk(u.Field(i).Type())
 			}
-		case *types.Pointer, *types.Map:
-			vc.fact(Imp(st.reach, And(Le(Zero, v.L[pos]), Lt(v.L[pos], st.alloc))))
+		case *types.Pointer:
+			vc.fact(Imp(st.reach, And(Le(Zero, v.L[pos]), Lt(v.L[pos], st.alloc), kindIs(v.L[pos], kindOfPtr(t)))))
+			pos++
+		case *types.Map:
+			vc.fact(Imp(st.reach, And(Le(Zero, v.L[pos]), Lt(v.L[pos], st.alloc), kindIs(v.L[pos], "M|"+typeKey(t)))))
 			pos++
 		case *types.Interface:
 			vc.fact(Imp(st.reach, And(Le(Zero, v.L[pos]), Lt(v.L[pos+1], st.alloc), Imp(Eq(v.L[pos], Zero), Eq(v.L[pos+1], Zero)))))
@@ -884,7 +895,7 @@ func (f *Frame) convert(st *State, x *ssa.Convert) Val {
 		fnm := vc.declareFun("runeToStr", []*Sort{SInt}, SStr)
 		return scalar(x.Type(), mk(SStr, fnm, v.one()))
 	case fok && fb.Info()&types.IsString != 0 && isByteSlice(to):
-		r := vc.alloc(st, "bytes")
+		r := vc.alloc(st, "bytes", "E|uint8")
 		name := compElem(types.Typ[types.Uint8], "")
 		vc.registerComp(name, SArr(SInt, SArr(SInt, SInt)))
 		fnm := vc.declareFun("bytesOf", []*Sort{SStr}, SArr(SInt, SInt))
@@ -991,7 +1002,8 @@ func (f *Frame) appendOp(st *State, x *ssa.Call, s, t Val) Val {
 	newLen := Add(s.len(), n)
 	// in-place branch writes s.arr[len..len+n)
 	f.frameAppend(st, s, n, inPlace, x.Pos())
-	rNew := vc.alloc(st, "arr")
+	rNew := vc.alloc(st, "arr", "E|"+typeKey(el))
+	f.zeroArray(st, el, rNew)
 	newCap := vc.fresh("cap", SInt)
 	vc.fact(Ge(newCap, newLen))
 	resArr := vc.fresh("apparr", SInt)
@@ -1004,7 +1016,13 @@ func (f *Frame) appendOp(st *State, x *ssa.Call, s, t Val) Val {
 		src := Select(c, s.arr())
 		var content Term
 		if single {
-			content = Store(src, s.len(), Select(Select(c, t.arr()), Zero))
+			// in place: one element written; reallocated: prefix copied, the
+			// new element, zero beyond (fresh arrays never expose old garbage)
+			x0 := Select(Select(c, t.arr()), Zero)
+			cnew := vc.fresh("appnew", inner)
+			j := Term{"j!q", SInt}
+			vc.fact(Forall([]Term{j}, Eq(Select(cnew, j), Ite(And(Le(Zero, j), Lt(j, s.len())), Select(src, j), Ite(Eq(j, s.len()), x0, zeroOf(inner.V)))), []Term{Select(cnew, j)}))
+			content = Ite(inPlace, Store(src, s.len(), x0), cnew)
 		} else {
 			// content[j] = j < len(s) ? s[j] : t[j-len(s)] for j < newLen (quantified)
 			content = vc.fresh("appcontent", inner)
@@ -1243,4 +1261,16 @@ func (f *Frame) innermostLoop(b *ssa.BasicBlock) *Loop {
 		}
 	}
 	return best
+}
+
+// kindOfPtr is the allocation kind of the object a pointer type addresses.
+func kindOfPtr(ptrT types.Type) string {
+	el := deref(ptrT)
+	if isStruct(el) {
+		return "H|" + typeKey(el)
+	}
+	if isArray(el) {
+		return "E|" + typeKey(elemOf(el))
+	}
+	return "C|" + typeKey(el)
 }
